@@ -16,6 +16,10 @@ fn main() {
   for f in &files {
     println!("cargo:rerun-if-changed={}", f.display());
   }
+  // does the crate use non-blocking lock operations? Then whether a lock is *still* held at
+  // a given moment is observable, and the runtime also schedules before every release
+  let uses_try = [".try_read(", ".try_write(", ".try_lock("].iter().any(|p| body.contains(p));
+  let body = format!("{}\npub const VERIF_USES_TRY_LOCKS: bool = {};\n", body, uses_try);
   let out = PathBuf::from(std::env::var("OUT_DIR").unwrap()).join("flat.rs");
   fs::write(&out, body).unwrap();
 }
